@@ -36,10 +36,8 @@ LOCAL Logic(f, a, b, n) ==
    unit of its last GENERATED digit, where at least min(printed significant digits, digits mpf_get_str can produce for that precision) are generated.
    text = [-]ddd[.ddd][e(+|-)dd]; the operand is mant * 2^(64*(exp - |sz|)) ---- *)
 LOCAL ChN(t, k) == SubSeq(t, k, k)
-RECURSIVE FindChN(_, _, _)
-FindChN(t, c, k) == IF k > Len(t) THEN 0 ELSE IF ChN(t, k) = c THEN k ELSE FindChN(t, c, k + 1)
-RECURSIVE LeadZeros(_, _)
-LeadZeros(t, k) == IF k > Len(t) \/ ChN(t, k) # "0" THEN 0 ELSE 1 + LeadZeros(t, k + 1)
+FindChN(t, c, k) == StrFind(t, c)              \* (k = 1) BigZ: TLA+ definition + accelerator
+LeadZeros(t, k) == StrLead(t, "0")
 Dec10 == "0123456789"
 PrintfFOK(text, mant, expl, szl, precl) ==
    LET neg == Len(text) > 0 /\ ChN(text, 1) = "-"
